@@ -598,6 +598,32 @@ public final class CryptoPrims {
         return pointResult(new BigInteger[] { a[0], a[1], BigInteger.ONE });
     }
 
+    /** Jacobi symbol (n / k) of two little-endian byte strings, k odd and positive: -1, 0 or 1 (0 also when k is even or zero).
+     *  The definition is Transforms!Jacobi (binary algorithm over BigNat); MC_Jacobi checks that the two agree. */
+    public static Value JacobiLE(final Value nLE, final Value kLE) {
+        final byte[] nb = bytes("JacobiLE", nLE), kb = bytes("JacobiLE", kLE);
+        final byte[] nbe = new byte[nb.length], kbe = new byte[kb.length];
+        for (int i = 0; i < nb.length; i++) nbe[i] = nb[nb.length - 1 - i];
+        for (int i = 0; i < kb.length; i++) kbe[i] = kb[kb.length - 1 - i];
+        BigInteger n = new BigInteger(1, nbe), k = new BigInteger(1, kbe);
+        if (k.signum() == 0 || !k.testBit(0)) {
+            return IntValue.gen(0);
+        }
+        n = n.mod(k);
+        int t = 1;
+        while (n.signum() != 0) {
+            while (!n.testBit(0)) {
+                n = n.shiftRight(1);
+                final int r = k.intValue() & 7;
+                if (r == 3 || r == 5) t = -t;
+            }
+            final BigInteger tmp = n; n = k; k = tmp;
+            if ((n.intValue() & 3) == 3 && (k.intValue() & 3) == 3) t = -t;
+            n = n.mod(k);
+        }
+        return IntValue.gen(k.equals(BigInteger.ONE) ? t : 0);
+    }
+
     public static Value XOnlyTweakAddCheck(final Value q32, final Value parity, final Value p32, final Value tweak32) {
         final byte[] q = bytes("XOnlyTweakAddCheck", q32);
         if (!(parity instanceof IntValue)) {
